@@ -5,7 +5,7 @@
    composition loses persistent groups (known finding), which depends on reference-count driven registry edits that
    the model does not express. *)
 Require Import List Bool ZArith.
-From FV Require Import Lib.Sym Model.C01 Model.C03 Model.C03Graph Model.C04 Proofs.C04 Proofs.C04Graph Proofs.C04GraphTrain Proofs.C04GraphTrainPers.
+From FV Require Import Lib.Sym Model.C01 Model.C01Compile Model.C03 Model.C03Graph Model.C04 Proofs.C04 Proofs.C04Graph Proofs.C04GraphTrain Proofs.C04GraphTrainPers Proofs.C04GraphCommit.
 Import ListNotations.
 
 (* positional binding is correct: a freshly expanded pipeline whose i-th stateful apply-path actor receives the i-th
@@ -73,9 +73,33 @@ Theorem C04_train_graph_persisted : forall e a t sl prev,
 Proof. exact train_graph_persisted. Qed.
 Print Assumptions C04_train_graph_persisted.
 
+(* ... and through the compiler (C01): compiled with the accessor that holds a complete previous generation, for every
+   expression and every visiting order the compiler model succeeds and - whenever there is anything to persist - the table's
+   committer evaluates to exactly the list the re-training run persists, state by state *)
+Theorem C04_retrain_commits : forall e a t sl prev visit,
+  let gs := build e (gsource a t sl) in let gids := pers_gids e (gsource a t sl) in let L := combine gids prev in
+  List.length prev = List.length gids ->
+  NoDup visit -> (forall i, In i visit -> i < List.length (gnodes gs)) -> List.length visit = List.length (gnodes gs) ->
+  exists tb, bind (compile (Some L) (gnodes gs) visit) canon = Some tb
+    /\ (gids <> [] -> exists c, find_pos (fun sy => match fst sy with OCommitter => true | _ => false end) tb = Some c
+          /\ forall fuel, 2 * List.length (gnodes gs) + 4 <= fuel ->
+               eval fuel (Some L) (gnodes gs) tb c = Some (TTup (persisted (train_run prev (flatten e) (source a t sl))))).
+Proof. intros e a t sl prev visit gs gids L H. exact (retrain_commits e a t sl prev H visit). Qed.
+Print Assumptions C04_retrain_commits.
+
 Example C04_witness :
   let a := OpSpec (Some (Actor 5 0 true)) TSame None in
   let b := OpSpec (Some (Actor 6 1 true)) TNo (Some (Actor 7 0 true)) in
   let '(r, outs) := lifecycle [a; b] (source 0 1 2) [] [DoTrain; DoTrain; DoApply 1] in
   List.length r = 2 /\ List.length (nth 1 r []) = 2 /\ List.length outs = 1.
 Proof. vm_compute. repeat split. Qed.
+
+(* re-training really continues: with a previous generation in the accessor the training graph trains other states *)
+Example C04_retrain_witness :
+  let a := OpSpec (Some (Actor 5 0 true)) TSame None in
+  let b := OpSpec (Some (Actor 6 1 true)) TNo (Some (Actor 7 0 true)) in
+  let e := ESeq (EOp a) (EOp b) in
+  let prev := persisted (train_run [] (flatten e) (source 0 1 2)) in
+  List.length prev = List.length (pers_gids e (gsource 0 1 2))
+  /\ terms_eqb (persisted (train_run prev (flatten e) (source 0 1 2))) prev = false.
+Proof. vm_compute. split; reflexivity. Qed.
